@@ -1315,8 +1315,54 @@ class ProgGen:
         return ts + ['iprod:2'], es[0] * es[1]
 
 
-def gen_programs(seed, count, max_vars=3, max_depth=4, single_path=False):
+IDIOMS = [
+    # accumulators that start from a constant (absent derivative parts) and are updated in place
+    (2, 'k1.0,x0,x1,mul,subas,x1,sin,subas'),
+    (1, 'k0.5,x0,sq1p,ln,addas,x0,exp,mulas'),
+    (2, 'k2.0,x0,x1,sub,sq1p,divas,x1,subas'),
+    (1, 'x0,k3.0,subas,x0,mul,k1.5,x0,cos,mulas,sub'),
+]
+
+
+def idiom_programs(max_vars):
     out = []
+    for nv, rpn in IDIOMS:
+        if nv > max_vars:
+            continue
+        xs = [_sp.Symbol(f'x{i}', real=True) for i in range(nv)]
+        st = []
+        for tok in rpn.split(','):
+            if tok.startswith('x') and tok[1:].isdigit():
+                st.append(xs[int(tok[1:])])
+            elif tok.startswith('k'):
+                st.append(_sp.Rational(tok[1:]))
+            elif tok in ('add', 'addas'):
+                b = st.pop(); a = st.pop(); st.append(a + b)
+            elif tok in ('sub', 'subas'):
+                b = st.pop(); a = st.pop(); st.append(a - b)
+            elif tok in ('mul', 'mulas'):
+                b = st.pop(); a = st.pop(); st.append(a * b)
+            elif tok in ('div', 'divas'):
+                b = st.pop(); a = st.pop(); st.append(a / b)
+            elif tok == 'sq1p':
+                a = st.pop(); st.append(1 + a * a)
+            elif tok == 'sin':
+                st.append(_sp.sin(st.pop()))
+            elif tok == 'cos':
+                st.append(_sp.cos(st.pop()))
+            elif tok == 'exp':
+                st.append(_sp.exp(st.pop()))
+            elif tok == 'ln':
+                st.append(_sp.log(st.pop()))
+            else:
+                raise ValueError(tok)
+        out.append((nv, rpn.split(','), st[0], xs))
+    return out
+
+
+def gen_programs(seed, count, max_vars=3, max_depth=4, single_path=False):
+    out = idiom_programs(max_vars)
+    count += len(out)
     rng = random.Random(1000 + seed)
     tries = 0
     while len(out) < count and tries < count * 20:
@@ -1676,7 +1722,9 @@ def _alg_add(a, b):
 
 
 def _c12_chunk(run, specs):
-    cases = trace(specs, 'c12', run.seed, max_paths=4096 if run.tier == 'thorough' else 600)
+    n3 = any(s[1].startswith('lu;3') for s in specs)
+    cases = trace(specs, 'c12', run.seed, max_paths=4096 if run.tier == 'thorough' else 600,
+                  random_paths=(60 if run.tier == 'quick' else 600) if n3 else None)
     for case in cases:
         run.cases += 1
         k = case['kind'].split(';')
@@ -1722,7 +1770,7 @@ def _c12_chunk(run, specs):
             for i in range(n):
                 t = ir.mul(t, A[i][perm[i]][0])
             det_re = ir.add(det_re, t)
-        limit = 10 ** 9 if (n <= 2 or run.tier == 'thorough') else 40
+        limit = 10 ** 9
         for pi, path in enumerate(case['paths'][:limit]):
             res = path['result']
             role = f'C12:lu:{op}'
@@ -1796,15 +1844,17 @@ def c12(run):
         for n in (1, 2):
             for op in ('solve', 'det', 'inverse'):
                 specs.append((sh, f'lu;{n};{op}', (1 << (ngroups(sh) * (n * n + n))) - 1))
+    # n = 3: the decision tree has thousands of feasible pivoting paths; seeded random sampling
+    for op in ('solve', 'det', 'inverse'):
+        specs.append(('Real', f'lu;3;{op}', 0))
     if run.tier == 'thorough':
         for op in ('solve', 'det'):
-            specs.append(('Real', f'lu;3;{op}', 0))
             specs.append(('Dual', f'lu;3;{op}', 0))
     run.timeout_ms = 8000 if run.tier == 'quick' else 60000
     parallel(run, _c12_chunk, [[s] for s in specs], chunk_timeout=600 if run.tier == 'quick' else 7200)
     drop_undecided(run, 0.1)
-    run.bounds = {'sizes': 'n = 1, 2 complete (all pivoting paths); n = 3 over f64-like and Dual entries in the '
-                           'thorough tier, first 4096 paths of the decision tree',
+    run.bounds = {'sizes': 'n = 1, 2 complete (all pivoting paths); n = 3: seeded random sample of pivoting paths '
+                           '(60 quick / 600 thorough scripts, plain entries; Dual entries in thorough)',
                   'entry types': ', '.join(shapes),
                   'not applicable inside C12': 'jacobi_eigenvalue, smallest_ev, nalgebra symmetric_eigen (iteration '
                                                'to convergence on symbolic data has no finite unwinding; rotation '
